@@ -107,3 +107,13 @@ func symDFAAccepts(trans []uint8, nc int, class []uint8, start uint8, s string, 
 	}
 	return accept[st] != 0
 }
+
+// symAssertEq asserts got == want; the native failure message carries both values.
+func symAssertEq(got, want string, msg string) {
+	if got != want {
+		verifDetail = fmt.Sprintf("got %q want %q", got, want)
+		panic(verifAssertFailed{msg})
+	}
+}
+
+var verifDetail string
